@@ -218,7 +218,7 @@ def classify_reject(rj):
         if act is not None and act[0] == exp[0] and len(act) == len(exp):
             if exp[0] in ('rec', 'unexp', 'shift', 'reduce', 'goto', 'synerr', 'msg', 'recto', 'consume') and act[3:] == exp[3:]:
                 return 'position'
-            if exp[0] == 'call' and act[:4] == exp[:4]:
+            if exp[0] == 'call' and act[:4] == exp[:4] and act[6:] == exp[6:]:
                 return 'position'
         kinds = {exp[0]} | ({act[0]} if act else set())
         if act and act[0].startswith('oob'):
@@ -288,6 +288,8 @@ def byte_sweep(e, buf=0, verbose=False, tag='bs'):
     """every byte value 0..255 alone, after a term and before a term, under both whitespace settings: byte classes
     (whitespace sets, NUL, sign extension of bytes >= 0x80) are part of 'all inputs'"""
     ts = [ord(t) for t in e.g.ts] if e.g.ts else [ord('a')]
+    if hasattr(e, 'lexterms'):
+        ts = [t[1] if t[0] == 'C' else t[1][0] for t in e.lexterms if t[0] in ('C', 'S')] or [ord('a')]
     t0 = ts[0]
     ins = []
     for b in range(256):
@@ -503,9 +505,22 @@ def check_C16(tier, seed):
     entries = []
     for g in catalogue('lr1')[::2] + catalogue('sr')[:3] + catalogue('err')[:4]:
         entries += entries_for(g, hosts=(), gen=True) if len(entries) % 2 else entries_for(g, hosts=(0, 1), gen=False) or entries_for(g, hosts=(), gen=True)
+    # multi-character lexemes (string / regex terms): what the verbose lines print of a lexeme must be the lexeme
+    import lx as lxl
+    for li, ts in enumerate([[lxl.S('if'), lxl.R('[0-9]+'), lxl.C('+'), lxl.S('++')], [lxl.R('[a-z]+'), lxl.S('=='), lxl.C('=')]][:1 if tier == 'quick' else 2]):
+        entries.append(pipeline.lex_entry('c16lex%d' % li, ts))
     groups = {}
     for e in entries:
-        ins = ws_inputs(e.g, L if len(e.g.ts) <= 3 else L - 1, [ord('?'), 32], 250 if tier == 'quick' else 2000)
+        if hasattr(e, 'lexterms'):
+            alpha = sorted({b for t in e.lexterms for b in ([t[1]] if t[0] == 'C' else t[1]) if 32 < b < 127 and chr(b) not in '[]-+*'} | {ord('1'), ord('2'), ord('+'), 32})[:7]
+            ins = []
+            for sx in gram.all_strings(alpha, 4):
+                ins.append(sx)
+                if len(ins) >= (250 if tier == 'quick' else 2000):
+                    break
+            ins += [list(b'if 12+3 ++ if7'), list(b'123456+++if')]
+        else:
+            ins = ws_inputs(e.g, L if len(e.g.ts) <= 3 else L - 1, [ord('?'), 32], 250 if tier == 'quick' else 2000)
         for (v, st) in ((1, 0), (0, 0), (1, 1), (0, 1), (1, 2), (0, 2)):
             pipeline.add_jobs(e, ins, verbose=bool(v), stream=st, tag='v%ds%d_' % (v, st))
     res, work = prun.run(entries, 'C16', design_L=None, do_product=False, tlc_procs=4 if tier == 'quick' else 8, tlc_workers=4 if tier == 'quick' else 2)
@@ -1095,7 +1110,9 @@ def check_C04(tier, seed):
             pipeline.add_jobs(e, ins if (ws, nl) == (1, 1) else ins[::4], verbose=True, ws=ws, nl=nl, tag='o%d%d_' % (ws, nl))
         for _ in range(10 if tier == 'quick' else 60):
             n = rng.randint(5, 40)
-            pipeline.add_jobs(e, [[rng.choice(alpha + alpha + wsb + [11, 12, 13, 0]) for _ in range(n)]], verbose=bool(rng.getrandbits(1)), tag='r')
+            pipeline.add_jobs(e, [[rng.choice(alpha + alpha + wsb + [11, 12, 13, 0]) for _ in range(n)]], verbose=bool(rng.getrandbits(1)), ws=1, nl=rng.choice([0, 1]), tag='r')
+        if len(entries) < (2 if tier == 'quick' else 8):
+            byte_sweep(e)          # every byte value under the three whitespace settings (which bytes are skipped, which are not)
         entries.append(e)
     res = None
     if entries:
@@ -1579,9 +1596,9 @@ def check_C18(tier, seed):
     out = Outcome()
     rng = random.Random(seed)
     cat = {g.name: g for g in catalogue()}
-    names = ['left_rec', 'paren_list', 'expr_strat', 'nullable_prefix', 'lr1_not_lalr', 'err_suite', 'err_stmt', 'expr_amb']
+    names = ['left_rec', 'paren_list', 'expr_strat', 'nullable_prefix', 'lr1_not_lalr', 'err_suite', 'err_stmt', 'expr_amb', 'expr_amb_noprec', 'dangling_else', 'expr_nonassoc']
     if tier != 'quick':
-        names += ['closure_memo', 'two_lists', 'unit_chain', 'err_block', 'err_nested', 'dangling_else', 'right_rec_empty', 'mutual_rec']
+        names += ['closure_memo', 'two_lists', 'unit_chain', 'err_block', 'err_nested', 'right_rec_empty', 'mutual_rec', 'expr_unary', 'expr_rassoc']
     entries = [pipeline.clex_entry(cat[n]) for n in names if n in cat]
     L = 3 if tier == 'quick' else 4
     for e in entries:
@@ -1613,7 +1630,7 @@ def check_C18(tier, seed):
             pipeline.add_jobs(e, [b], verbose=bool(rng.getrandbits(1)), tag='s')
     res, work = prun.run(entries, 'C18', design_L=None, do_product=True, tlc_procs=4 if tier == 'quick' else 8, tlc_workers=4 if tier == 'quick' else 2)
     domain = {e.gid for e in entries if e.gid in res.conflicts and res.conflicts[e.gid]['rr'] == 0}
-    judge_traces(out, entries, res, {'step', 'functor', 'report', 'position', 'verdict', 'tree', 'extra', 'recovery', 'threw', 'oob', 'lexcall', 'partial-line'}, domain)
+    judge_traces(out, entries, res, {'table', 'step', 'functor', 'report', 'position', 'verdict', 'tree', 'extra', 'recovery', 'threw', 'oob', 'lexcall', 'partial-line'}, domain)
     out.coverage = base_coverage(res, {
         'grammars': len(entries), 'lexer_calls_validated': res.event_kinds.get('lexcall', 0), 'custom_term_values_validated': res.event_kinds.get('tval', 0),
         'bounds': {'L_all_inputs': L, 'lexer_answers': 'term index 0..#terms (one out of range), length 1..3, no-term, length beyond the input'},
@@ -1717,15 +1734,17 @@ def check_C14(tier, seed):
         entries.append(pipeline.gen_entry(g, gid=n + '@val'))
         if not g.has_error():
             entries.append(pipeline.gen_entry(g, gid=n + '@valdflt', dflt=sorted(range(0, len(g.rules), 2))))
+        entries.append(pipeline.gen_entry(g, gid=n + '@valctx', ctx=sorted(range(0, len(g.rules), 2))))
     L = 4 if tier == 'quick' else 5
     for e in entries:
         ins = ws_inputs(e.g, L if len(e.g.ts) <= 3 else L - 1, [ord('?')], 400 if tier == 'quick' else 3000)      # success, syntax errors, lexical errors, recovery
-        pipeline.add_jobs(e, ins, verbose=False)
+        cx = rng.choice([1, 3, 4, 5]) if getattr(e, 'ctx', ()) else 0
+        pipeline.add_jobs(e, ins, verbose=False, ctx=cx)
         for s in gengram.sentences(e.g, rng, 5 if tier == 'quick' else 30, max_len=60 if tier == 'quick' else 300):
-            pipeline.add_jobs(e, [s], verbose=False, tag='s')
+            pipeline.add_jobs(e, [s], verbose=False, tag='s', ctx=cx)
             if s:
                 m = list(s); m[rng.randrange(len(m))] = rng.choice([ord(c) for c in e.g.ts] + [ord('?')])
-                pipeline.add_jobs(e, [m], verbose=False, tag='m')
+                pipeline.add_jobs(e, [m], verbose=False, tag='m', ctx=cx)
     res, work = prun.run(entries, 'C14', design_L=None, do_product=False, tlc_procs=4 if tier == 'quick' else 8, tlc_workers=4 if tier == 'quick' else 2, env={'VERIF_TRACK': '1'})
     judge_traces(out, entries, res, {'functor', 'tree', 'verdict', 'threw'}, {e.gid for e in entries})
     probs, ntr, st, tr, nev = values_check(entries, 'C14v', tlc_procs=4 if tier == 'quick' else 8)
@@ -1799,6 +1818,8 @@ def check_C15(tier, seed):
         rng.shuffle(ins)
         pipeline.add_jobs(e, ins, verbose=False)
         pipeline.add_jobs(e, ins[::4], verbose=True, tag='v')
+        pipeline.add_jobs(e, ins[::2], verbose=False, stream=2, tag='os')      # diagnostics through the library's own std::ostream inserters
+        pipeline.add_jobs(e, ins[::4], verbose=True, stream=2, tag='ov')
         entries.append(e)
     nthr_traces = 0
     images = []
@@ -1857,8 +1878,21 @@ def check_C15(tier, seed):
         for jid, ts in byjob.items():
             for t in ts[1:]:
                 ncmp += 1
-                if t['ok'] != ts[0]['ok'] or json.dumps(t['tree']) != json.dumps(ts[0]['tree']):
+                if t['ok'] != ts[0]['ok'] or json.dumps(t['tree']) != json.dumps(ts[0]['tree']) or t.get('stream_text') != ts[0].get('stream_text'):
                     out.violations.append({'summary': {'class': 'the same call gave different results in different threads', 'grammar': e.gid, 'input': bytes(t['bytes']).decode('latin-1')}, 'kind': 'threads'})
+    for e in entries:
+        cap = {}
+        for t in e.traces:
+            if t['stream'] == 0:
+                cap[(tuple(t['bytes']), t['verbose'])] = ''.join(ev[1] + '\n' for ev in t['events'] if ev[0] == 'L' and 'REGEX MATCH' not in ev[1])
+        for t in e.traces:
+            if t['stream'] == 2:
+                want = cap.get((tuple(t['bytes']), t['verbose']))
+                got = ''.join(l + '\n' for l in t['stream_text'].split('\n')[:-1] if 'REGEX MATCH' not in l)
+                if want is not None and got != want:
+                    ncmp += 1
+                    out.violations.append({'summary': {'class': 'text written to a std::ostream by one thread differs from the validated lines of the same call', 'grammar': e.gid,
+                                                       'input': bytes(t['bytes']).decode('latin-1'), 'thread_job': t['id'], 'got': got[:200], 'expected': want[:200]}, 'kind': 'threads'})
     out.violations = out.violations[:12]
     out.coverage = {'states': int(st), 'transitions': int(max(tr, 1)), 'traces_validated_against_impl': nthr_traces,
                     'interleaving_model': {'module': 'Concurrent.tla', 'threads': 2 if tier == 'quick' else 3, 'distinct_states': rc.distinct},
